@@ -13,6 +13,7 @@ import Bmc.Proofs.GenHs.Model
 import Bmc.Proofs.GenHs.Wrappers
 import Bmc.Proofs.GenHs.NewV2Session
 import Bmc.Proofs.GenHs.Examples
+import Bmc.Proofs.EndToEnd.HandshakeC01
 #print axioms Bmc.Proofs.C01.keys_are_spec
 #print axioms Bmc.Proofs.C01.session_ids
 #print axioms Bmc.Proofs.C01.unsupported_refused
@@ -63,3 +64,10 @@ import Bmc.Proofs.GenHs.Examples
 #print axioms Bmc.Proofs.GenHs.toy_wrong_code
 #print axioms Bmc.Proofs.GenHs.toy_wrong_icv
 #print axioms Bmc.Proofs.GenHs.toy_gen_eq
+#print axioms Bmc.Proofs.EndToEnd.rakp2Code_fields
+#print axioms Bmc.Proofs.EndToEnd.rakp3Code_fields
+#print axioms Bmc.Proofs.EndToEnd.sikOf_fields
+#print axioms Bmc.Proofs.EndToEnd.icvOf_fields
+#print axioms Bmc.Proofs.EndToEnd.hsRun_live
+#print axioms Bmc.Proofs.EndToEnd.hsRun_against_spec_bmc
+#print axioms Bmc.Proofs.EndToEnd.generated_newV2Session_live
